@@ -32,7 +32,7 @@ class Engine(object):
 
     # -- name resolution ---------------------------------------------------------
     def global_name(self, k, name):
-        if name in ('set', 'dict', 'list', 'len', 'isinstance', 'range', 'iter', 'next', 'super', 'str', 'bool',
+        if name in ('set', 'dict', 'list', 'len', 'isinstance', 'range', 'iter', 'next', 'super', 'str', 'bool', 'int',
                     'sorted', 'min', 'max', 'sum', 'id', 'print'):
             return SV('func', None, ('builtin', name))
         if name in EXC_PARENTS:
@@ -304,6 +304,8 @@ class Engine(object):
             raise Unsupported('next of %s' % it.ty)
         if name in ('str', 'print'):
             return SV('str')
+        if name == 'int' and args and args[0].ty == 'int':
+            return args[0]
         if name == 'bool':
             return SV('bool', ex.truth(args[0], path))
         raise Unsupported('builtin %s at line %d' % (name, e.lineno))
@@ -641,6 +643,8 @@ class Engine(object):
                 exc, ln = val
                 if exc in k.raises:
                     ex.oblige('raises:%s:only_if:L%s' % (exc, ln), p, k.raises[exc](c), ('raises',), ln)
+                    for name_, f_ in k.hints.get('raise_ensures', lambda c_, p_, e_: [])(c, p, exc):
+                        ex.oblige('raises:%s:%s:L%s' % (exc, name_, ln), p, f_, ('raises',), ln)
                     if k.raise_unchanged:
                         for comp, f in hp.same_below(c.h0, p.heap, c.h0.alloc, named=True):
                             ex.oblige('raises:%s:state_unchanged:%s:L%s' % (exc, comp, ln), p, f, ('frame',), ln)
